@@ -564,6 +564,23 @@ def add_failing_lazy_initializer(model, big=False):
         model.graph.initializers.add(x)
 
 
+def add_unloaded_initializers(model, rng) -> int:
+    """Initializers whose data is not loaded (const_value is None; they can be registered with
+    graph.initializers.add): the ONNX-call helper turns them into plain inputs for the call and must put
+    them back.  One typed + shaped, one with a type only, placed at random positions of the order."""
+    keep = list(model.graph.initializers.values())
+    for x in keep:
+        model.graph.initializers.pop(x.name)
+    new = [ir.Value(name="vf_unloaded", type=ir.TensorType(ir.DataType.FLOAT), shape=ir.Shape([2, 3]))]
+    if rng.random() < 0.5:
+        new.append(ir.Value(name="vf_unloaded_t", type=ir.TensorType(ir.DataType.INT64)))
+    order = keep + new
+    rng.shuffle(order)
+    for x in order:
+        model.graph.initializers.add(x)
+    return len(new)
+
+
 # ---- one case ---------------------------------------------------------------------------------------
 def judge_pass(ctx, model, pname, rng, case, fault_kind=None, messy_names=False, gen=None):
     viol = lambda sig, msg: ctx.violation(sig, msg, {"case": case, "seed": ctx.seed, "pass": pname, "fault": fault_kind})  # noqa: E731
@@ -868,6 +885,9 @@ def run_case(ctx, case):
         if fk.startswith("lazy_raises"):
             # the serialisation itself fails inside the ONNX-call helper
             add_failing_lazy_initializer(model, big=fk.endswith("big"))
+        if rng.random() < 0.35:
+            ctx.count("models_with_unloaded_initializers")
+            add_unloaded_initializers(model, rng)
         ctx.count("fault:" + fk)
         judge_pass(ctx, model, pname, rng, case, fault_kind=fk)
         nontrivial = True
